@@ -243,7 +243,7 @@ func b2i(b bool) int64 {
 	return 0
 }
 
-var wC22 = weights{"tip": 7, "past": 5, "update": 4, "resubmit": 2, "conflict": 1, "time": 8, "block": 1, "recover": 3}
+var wC22 = weights{"tip": 6, "past": 5, "update": 4, "resubmit": 2, "conflict": 1, "time": 10, "block": 1, "recover": 3}
 
 func TestC22(t *testing.T) {
 	vx.Check(t, vx.Prop[Case]{
